@@ -1,8 +1,10 @@
 package proto
 
 import (
+	"bytes"
 	"encoding/json"
 	"fmt"
+	"io"
 	"math"
 	"math/rand"
 	"runtime"
@@ -321,6 +323,9 @@ func check05(c *Case, o *Obs, rec Rec) (vs []viol, inconclusive string) {
 		if c.Kind == "C05ctx" {
 			cls = "ctx-done"
 		}
+		if c.WSCtl != "" {
+			cls = "client-" + c.WSCtl
+		}
 		if c.Opt != "" {
 			// mux-option cases: the class is how the status compares with the limit
 			switch n := len(sc.Msg); {
@@ -389,11 +394,40 @@ func check05(c *Case, o *Obs, rec Rec) (vs []viol, inconclusive string) {
 		return vs, ""
 	}
 
+	if o.EncErr != "" {
+		// the client decodes per the response's Content-Encoding: neither code
+		// nor message can be read from a body that does not decode
+		add("content-encoding-undecodable", aeClass(c.AcceptEnc), o.EncErr)
+		return vs, ""
+	}
 	switch {
 	case c.Proto == "http" || c.Proto == "http-sock":
 		if sc.Code == 0 {
 			if o.HTTP != 200 {
 				add("http-status", "code=0", fmt.Sprintf("successful RPC answered with HTTP %d", o.HTTP))
+			}
+			return
+		}
+		if rec.Sent > 0 && c.AcceptEnc != "" && c.Codec == "json" {
+			// streamed JSON replies followed by the error: the stream of JSON
+			// values decodes and ends with the handler's google.rpc.Status
+			dec := json.NewDecoder(bytes.NewReader(o.Body))
+			var last json.RawMessage
+			n := 0
+			for {
+				var v json.RawMessage
+				if err := dec.Decode(&v); err != nil {
+					if err != io.EOF {
+						add("stream-body-undecodable", aeClass(c.AcceptEnc), fmt.Sprintf("after %d JSON values the streamed body does not decode: %+q", n, err.Error()))
+						return
+					}
+					break
+				}
+				last, n = v, n+1
+			}
+			st := &spb.Status{}
+			if err := protojson.Unmarshal(last, st); err != nil || st.GetCode() != int32(sc.Code) || st.GetMessage() != sc.Msg {
+				add("stream-final-status", aeClass(c.AcceptEnc), fmt.Sprintf("the streamed body (%d JSON values) does not end with the handler's status (%d, %+q): last value %+q", n, sc.Code, clip(sc.Msg, 60), clip(string(last), 100)))
 			}
 			return
 		}
@@ -691,6 +725,16 @@ func check05HTTPShape(c *Case, o *Obs, rec Rec) (vs []viol) {
 	return vs
 }
 
+// aeClass: does the Accept-Encoding value admit gzip?
+func aeClass(ae string) string {
+	l := strings.ToLower(ae)
+	switch {
+	case strings.Contains(l, "gzip;q=0") && !strings.Contains(l, "gzip;q=0."), strings.Contains(l, "*;q=0") && !strings.Contains(l, "gzip"), !strings.Contains(l, "gzip") && !strings.Contains(l, "*"):
+		return "accept-encoding-without-gzip"
+	}
+	return "accept-encoding-admits-gzip"
+}
+
 // answered reports that the client received a definite protocol-level answer.
 func answered(o *Obs) bool {
 	return o.Err == "" && !o.Timeout && (o.WSClose || o.HasStatus || o.HTTP >= 400)
@@ -878,7 +922,7 @@ func (g *c05Runner) flush() {
 
 // RunC05 is the status / error fidelity check.
 func RunC05(r *mon.Run) {
-	r.Rule = "a scripted handler behind a real Mux returns status (code, message, optional 2 details) before any reply or after 1 / 3 replies; one client per protocol observes the outcome: HTTP JSON/protobuf and Twirp (in-process and HTTP/1 socket), grpc-go over h2c, raw gRPC frames in-process and over h2c, gRPC-web binary/text (in-process and HTTP/1 socket), WebSocket (socket). Cases = (codes 0..16, 17, 18, 19, 31, 32, 63, 64, 100, 255, 256, 2^31-1, 2^31, 2^32-1 x 3 base messages) + (2-3 codes x every message of the message set: empty, ASCII, single bytes embedded in text, '%' at start/middle/end, multi-byte tails, 1 KiB, 70 KiB, 123/124-byte close-frame boundary, seeded random mixes of ASCII / '%' / control / multi-byte pieces), each with and without details, on every protocol x codec x method x reply-count variant, plus a class where the handler calls SetHeader / SendHeader / SetTrailer with custom metadata at entry or right before it returns the status, plus HTTP failures (handler errors on body-less GET and HttpBody upload routes, errors of the mux itself: no codec, no route, wrong verb, unknown method) under 11 request Content-Type x 11 Accept values (absent, registered, with parameters, other case, foreign, wildcard, non-matching, malformed), plus sequences (the request preceded on the same fresh mux by another client's request with the same Accept value and another Content-Type; the answer must equal the one a fresh mux gives to the request alone), plus a sweep of the status message length 0..40 on gRPC-web-text after 0..3 replies, plus a mux with ConnectionTimeoutOption(100ms) whose handler stays quiet for 400 ms before it returns its status (after 0..3 replies; WebSocket, gRPC, gRPC-web, HTTP), plus muxes built with small MaxSendMessageSize / MaxReceiveMessageSize options (64, 256 bytes) x long messages / details, plus client- and bidi-streaming gRPC clients (grpc-go, raw h2c) that keep their send side open until the status arrives (10 s watchdog + goroutine dump), plus a small class where the call's deadline has expired before the handler returns. Every class runs against the handler registered on the mux and (quick: reduced matrix) against the same handler on a real grpc.Server back-end that a second mux proxies through RegisterConn (codes up to 2^31-1). An execution is non-trivial when the scripted handler ran; distinct = (target, protocol, codec, method, replies before status, code class, message shape, details?)"
+	r.Rule = "a scripted handler behind a real Mux returns status (code, message, optional 2 details) before any reply or after 1 / 3 replies; one client per protocol observes the outcome: HTTP JSON/protobuf and Twirp (in-process and HTTP/1 socket), grpc-go over h2c, raw gRPC frames in-process and over h2c, gRPC-web binary/text (in-process and HTTP/1 socket), WebSocket (socket). Cases = (codes 0..16, 17, 18, 19, 31, 32, 63, 64, 100, 255, 256, 2^31-1, 2^31, 2^32-1 x 3 base messages) + (2-3 codes x every message of the message set: empty, ASCII, single bytes embedded in text, '%' at start/middle/end, multi-byte tails, 1 KiB, 70 KiB, 123/124-byte close-frame boundary, seeded random mixes of ASCII / '%' / control / multi-byte pieces), each with and without details, on every protocol x codec x method x reply-count variant, plus a class where the handler calls SetHeader / SendHeader / SetTrailer with custom metadata at entry or right before it returns the status, plus HTTP failures (handler errors on body-less GET and HttpBody upload routes, errors of the mux itself: no codec, no route, wrong verb, unknown method) under 11 request Content-Type x 11 Accept values (absent, registered, with parameters, other case, foreign, wildcard, non-matching, malformed), plus sequences (the request preceded on the same fresh mux by another client's request with the same Accept value and another Content-Type; the answer must equal the one a fresh mux gives to the request alone), plus a sweep of the status message length 0..40 on gRPC-web-text after 0..3 replies, plus Accept-Encoding request headers (gzip, identity, q=0 forms, lists) on the HTTP / Twirp failure classes with the body decoded per the response Content-Encoding, plus WebSocket clients that send Ping / unsolicited Pong frames before / after their data frame, plus a mux with ConnectionTimeoutOption(100ms) whose handler stays quiet for 400 ms before it returns its status (after 0..3 replies; WebSocket, gRPC, gRPC-web, HTTP), plus muxes built with small MaxSendMessageSize / MaxReceiveMessageSize options (64, 256 bytes) x long messages / details, plus client- and bidi-streaming gRPC clients (grpc-go, raw h2c) that keep their send side open until the status arrives (10 s watchdog + goroutine dump), plus a small class where the call's deadline has expired before the handler returns. Every class runs against the handler registered on the mux and (quick: reduced matrix) against the same handler on a real grpc.Server back-end that a second mux proxies through RegisterConn (codes up to 2^31-1). An execution is non-trivial when the scripted handler ran; distinct = (target, protocol, codec, method, replies before status, code class, message shape, details?)"
 	r.Floor = 150
 	env, err := newEnv()
 	if err != nil {
@@ -1134,6 +1178,56 @@ func RunC05(r *mon.Run) {
 					c.Script.Replies = 2
 				}
 				g.exec(c, c.Class)
+			}
+		}
+	}
+
+	// Accept-Encoding as a header of the HTTP / Twirp failure classes: errors
+	// before anything was sent, after SendHeader, after streamed replies; the
+	// client decodes per the response's Content-Encoding
+	for _, target := range []string{"", "proxy"} {
+		for _, ae := range []string{"gzip", "identity", "*;q=0", "gzip;q=0", "gzip, deflate, br", "identity;q=0.5, gzip"} {
+			for _, v := range []variant{{"http", "json", "Echo", 0}, {"http", "proto", "Echo", 0}, {"http-sock", "json", "Echo", 0}, {"http", "json", "SS", 0}, {"http", "json", "SS", 1}, {"http", "json", "SS", 3},
+				{"http-sock", "json", "SS", 2}, {"http", "proto", "SS", 1}, {"http-sock", "proto", "SS", 0}, {"twirp", "json", "Echo", 0}, {"twirp", "proto", "Echo", 0}, {"twirp-sock", "json", "Echo", 0}} {
+				if target == "proxy" && strings.HasSuffix(v.proto, "-sock") {
+					continue
+				}
+				for _, pre := range []string{"", "send", "set"} {
+					for _, code := range []uint32{5, 0} {
+						if code == 0 && pre != "" {
+							continue
+						}
+						c := &Case{Kind: "C05", Proto: v.proto, Codec: v.codec, Method: v.method, Class: "accept-encoding", Target: target, AcceptEnc: ae,
+							Script: Script{Code: code, Msg: "50% done ✓ " + repeatTo("compressible ", 300), Details: pre == "", Replies: v.replies}}
+						switch pre {
+						case "send":
+							c.Script.Hdr, c.Script.SendHdr = custom, true
+						case "set":
+							c.Script.Hdr = custom
+						}
+						if code == 0 && v.method != "Echo" && v.replies == 0 {
+							c.Script.Replies = 2
+						}
+						g.exec(c, c.Class)
+					}
+				}
+			}
+		}
+	}
+
+	// WebSocket clients that send control frames (Ping, unsolicited Pong)
+	// before / after their data frame
+	for _, target := range []string{"", "proxy"} {
+		for _, ctl := range []string{"ping-before", "pong-before", "ping-after", "pong-after", "ping-both", "pong-both"} {
+			for _, k := range []int{0, 1, 3} {
+				for _, code := range []uint32{0, 5, 16} {
+					c := &Case{Kind: "C05", Proto: "ws", Codec: "json", Method: "Bidi", Class: "ws-control-frames", Target: target, WSCtl: ctl,
+						Script: Script{Code: code, Msg: "50% done", Replies: k}}
+					if code == 0 && k == 0 {
+						c.Script.Replies = 2
+					}
+					g.exec(c, c.Class)
+				}
 			}
 		}
 	}
